@@ -11,7 +11,7 @@ open Givaro.Model.ModRing Givaro.Spec.ModRing
 
 inductive Fam where
   | int (k : ICfg) | flt (k : FCfg) | balF (k : BFCfg) | balI (k : BICfg) | ext (mant : Nat)
-  | zz | ru (k : RCfg) | rint (n : Nat) | log16
+  | zz | ru (k : RCfg) | rint (n : Nat) | log16 | mont | gfq
 
 def famOf : String → Option Fam
   | "s8" => some (.int ⟨8, true, 8⟩) | "s16" => some (.int ⟨16, true, 16⟩)
@@ -30,6 +30,7 @@ def famOf : String → Option Fam
   | "ru6" => some (.ru ⟨64, false⟩) | "ru7" => some (.ru ⟨128, false⟩) | "ru7ru8" => some (.ru ⟨128, true⟩)
   | "ri7" => some (.rint 128)
   | "log16" => some .log16
+  | "mg32" => some .mont | "gfq32" => some .gfq
   | _ => none
 
 def Fam.balanced : Fam → Bool
@@ -47,6 +48,8 @@ def Fam.limits : Fam → Int × Option Int
   | .ru k => (2, some k.maxCard)
   | .rint n => (2, some (3037000499 * (2 : Int) ^ (n / 2 - 32)))   -- ruint<K>::maxFFLAS: 2^(2^(K-1)-32) * 3037000499
   | .log16 => (2, some 16381)
+  | .mont => (2, some 40503)
+  | .gfq => (2, some 65536)
 
 inductive MRes where
   | noModel | inexact | val (x : Int)
@@ -251,7 +254,7 @@ def c04Verdict (f : Fam) (op : String) (m : Int) (a : Array Int) (res : List Str
   let bal := f.balanced
   let (lo, _) := f.limits
   if res == ["OUTOFRANGE"] || m < lo then "PRE" else
-  if (match f with | .log16 => !isPrimeNat m.toNat | _ => false) then "PRE" else
+  if (match f with | .log16 | .gfq => !isPrimeNat m.toNat | .mont => m % 2 == 0 | _ => false) then "PRE" else
   let bad (kind : String) (model : String) := s!"DIFF kind={kind} model={model} | {line.trimAscii.toString}"
   let showM : MRes → String
     | .noModel => "-" | .inexact => "INEXACT" | .val x => hexInt x
@@ -268,6 +271,9 @@ def c04Verdict (f : Fam) (op : String) (m : Int) (a : Array Int) (res : List Str
     let src := (op.drop 5).toString
     if res == ["NOSRC"] then "PRE" else
     let x := a.getD 0 0
+    -- Montgomery<int32_t>: sources without an overload of their own go through the template whose header comment
+    -- states "T is supposed to be fit into an Element" (uint32_t): a float beyond 2^32 is outside that contract
+    if (match f with | .mont => src == "f32" && (x ≥ 4294967296 || x ≤ -4294967296) | _ => false) then "PRE" else
     let mres := initModel f src m x
     match res with
     | [r] =>
